@@ -103,7 +103,44 @@ func (c *Ctx) emitPrimWrites(fd *ast.FuncDecl) (paths []string, undecided []stri
 		}
 		return nil, false
 	}
+	h.Index = func(in *Interp, st *State, e *ast.IndexExpr, x, i Value) (Value, bool) {
+		// b[i] inside the counted loop over the encoded bytes of b
+		if id, ok := stripParens(e.X).(*ast.Ident); ok && isTag(i, "bufidx") && fmt.Sprint(i.Data) == id.Name {
+			if _, isA := c.typeOf(id).Underlying().(*types.Array); isA {
+				return tagV("elem", fmt.Sprintf("bufslice(%s[:n(%s)])", id.Name, id.Name)), true
+			}
+		}
+		return Value{}, false
+	}
 	h.Loop = func(in *Interp, st *State, loop ast.Stmt, body func(*State) []*State) ([]*State, bool) {
+		if fs, isFor := loop.(*ast.ForStmt); isFor {
+			// for i := 0; i < n; i++ { … b[i] … } with n the encoded length of b: each byte of b[:n] once, in order
+			iv, bound, ok := c.countedLoop(fs)
+			if !ok {
+				return nil, false
+			}
+			bv := in.eval(st, bound)
+			if len(bv) != 1 || !isTag(bv[0].v, "enclen") {
+				return nil, false
+			}
+			st = bv[0].st
+			name := strings.TrimSuffix(strings.TrimPrefix(fmt.Sprint(bv[0].v.Data), "n("), ")")
+			x := tagV("bufslice", fmt.Sprintf("%s[:%s]", name, bv[0].v.Data))
+			it := st.clone()
+			it.Env[iv] = tagV("bufidx", name)
+			n0 := len(pay(it).ev)
+			np := len(pay(it).problems)
+			res := body(it)
+			if len(res) != 1 || (res[0].Term != tNone && res[0].Term != tContinue) {
+				pay(st).problems = append(pay(st).problems, c.pos(loop.Pos())+": the loop over the bytes branches or leaves early")
+				return []*State{st}, true
+			}
+			for _, e := range pay(res[0]).ev[n0:] {
+				pay(st).ev = append(pay(st).ev, "each("+desc(x)+"):"+e)
+			}
+			pay(st).problems = append(pay(st).problems, pay(res[0]).problems[np:]...)
+			return []*State{st}, true
+		}
 		rs, ok := loop.(*ast.RangeStmt)
 		if !ok || rs.Value == nil {
 			return nil, false
@@ -172,4 +209,46 @@ func (c *Ctx) emitPrimOK(fd *ast.FuncDecl, accept func(path string) bool) (bool,
 		}
 	}
 	return true, paths[0]
+}
+
+// countedLoop: `for i := 0; i < bound; i++ {…}` with i not assigned in the body.
+func (c *Ctx) countedLoop(fs *ast.ForStmt) (iv types.Object, bound ast.Expr, ok bool) {
+	as, isA := fs.Init.(*ast.AssignStmt)
+	if !isA || as.Tok != token.DEFINE || len(as.Lhs) != 1 || len(as.Rhs) != 1 {
+		return nil, nil, false
+	}
+	id, isID := as.Lhs[0].(*ast.Ident)
+	if k, isK := c.intConst(as.Rhs[0]); !isID || !isK || k != 0 {
+		return nil, nil, false
+	}
+	iv = c.objOf(id)
+	be, isB := stripParens(fs.Cond).(*ast.BinaryExpr)
+	if !isB || be.Op != token.LSS || !c.isObj(be.X, iv) {
+		return nil, nil, false
+	}
+	inc, isI := fs.Post.(*ast.IncDecStmt)
+	if !isI || inc.Tok != token.INC || !c.isObj(inc.X, iv) {
+		return nil, nil, false
+	}
+	written := false
+	ast.Inspect(fs.Body, func(n ast.Node) bool {
+		switch x := n.(type) {
+		case *ast.AssignStmt:
+			for _, l := range x.Lhs {
+				if c.isObj(l, iv) {
+					written = true
+				}
+			}
+		case *ast.IncDecStmt:
+			if c.isObj(x.X, iv) {
+				written = true
+			}
+		case *ast.UnaryExpr:
+			if x.Op == token.AND && c.isObj(x.X, iv) {
+				written = true
+			}
+		}
+		return true
+	})
+	return iv, be.Y, !written
 }
